@@ -49,9 +49,19 @@ def _assemble(desc):
     kind = desc["kind"]
     V = E = None
     F, C = [], []
+    padded = False
     if kind == "surface":
         z = surfaces.make(rng.randrange(2 ** 31), max_size=desc["max_size"])
         V, F = z["V"], z["F"]
+        if desc["seed"] % 6 == 4:
+            # triangles padded to quads by repeating a vertex ([a, b, c, c], as some exporters write them): the repeated pair is a self-loop,
+            # not a side of the face
+            padded = True
+            F = [list(f) for f in F]
+            for f in rng.sample(F, min(len(F), rng.randint(1, 3))):
+                if len(f) == 3:
+                    k = rng.randrange(3)
+                    f.insert(k + 1, f[k])
     elif kind == "tets":
         z = volumes.make(rng.randrange(2 ** 31), max_size=2)
         V, C = z["V"], z["C"]
@@ -84,7 +94,8 @@ def _assemble(desc):
     sides = set()
     for f in F:
         for k in range(len(f)):
-            sides.add((min(f[k], f[(k + 1) % len(f)]), max(f[k], f[(k + 1) % len(f)])))
+            if f[k] != f[(k + 1) % len(f)]:
+                sides.add((min(f[k], f[(k + 1) % len(f)]), max(f[k], f[(k + 1) % len(f)])))
     declared = []
     if kind == "polyline":
         declared = list(E0)
@@ -123,7 +134,7 @@ def _assemble(desc):
                 a["default"] = {"int": -7, "float": 2.25}[a["type"]]
             attrs.append(a)
     early = rng.choice([None, None, "after_vertices", "after_edges", "after_faces"])
-    return {"V": V, "E": allrows, "F": [list(map(int, f)) for f in F], "C": [list(map(int, c)) for c in C], "attrs": attrs, "sides": sides, "early_read": early}
+    return {"V": V, "E": allrows, "F": [list(map(int, f)) for f in F], "C": [list(map(int, c)) for c in C], "attrs": attrs, "sides": sides, "early_read": early, "padded": padded}
 
 
 def _payload(a, i):
@@ -244,6 +255,12 @@ def _construct(ctx, inp, desc, irows, tmpdir):
         data = M.mesh.load(path, raw=True)
         data.faces += build.rows(F[-split:], irows)
         return M.mesh.mesh._instanciate_raw_mesh_data(data), route
+    # the optional `dim` argument of load is a lower bound on the class: a value not above the dimension of the data changes nothing
+    real = 3 if C else (2 if F else (1 if E else 0))
+    if desc["seed"] % 3 == 1:
+        d_ = desc["seed"] % (real + 1)
+        ctx.cls("route:file:dim_argument_%d_of_%d" % (d_, real))
+        return M.mesh.load(path, d_) if desc["seed"] % 2 else M.mesh.load(path, dim=d_), route
     return M.mesh.load(path), route
 
 
@@ -353,7 +370,7 @@ def _check_norm(ctx, m, inp, desc, route):
         for f in face_for_sides:
             for k in range(len(f)):
                 e = (min(f[k], f[(k + 1) % len(f)]), max(f[k], f[(k + 1) % len(f)]))
-                if e not in have:
+                if e[0] != e[1] and e not in have:  # a vertex repeated in a face gives a self-loop, which is dropped
                     have.add(e)
                     exp_edges.append(e)
     edges = [tuple(int(x) for x in e) for e in m.edges]
@@ -499,7 +516,7 @@ def run_case(desc, ctx):
                           "building again from an already built mesh changed the source object's %s" % d, container=d)
                 s0 = s0b if d is None else s0
         # ---- container-type independence of later behaviour (default switches)
-        if kind in ("surface", "tets") and desc["route"] == "raw":
+        if kind in ("surface", "tets") and desc["route"] == "raw" and not inp.get("padded"):
             rng = random.Random(desc["seed"] ^ 77)
             if kind == "surface":
                 ref = RefSurface(len(inp["V"]), inp["F"])
